@@ -64,8 +64,19 @@ claim("C28",
  "Reduced scope: one gateway method; the HTTP layer (net/http, JSON decoding, every other endpoint) and hangs are outside the claim. Store answers follow the documented contracts of Unspents.GetArray, HistoryDB.GetUxOuts/GetTransaction; the transaction rule checks and CoinHours are summarised by arbitrary verdicts.",
  "DESIGN.md §4 C28 (H1 built)")
 
+
+claim("C24",
+ "Bounded symbolic check of the connection bookkeeping: starting from every state the real API reaches for up to two connections (absent / pending / connected / introduced, outgoing or incoming, same or different IP, free connection ids, mirrors, listen port 0 or 7000), one (thorough: two) arbitrary events (outgoing attempt, connect, introduce, remove, with free ids and mirrors) are applied to the real daemon.Connections and to a shadow list kept by the statement's transition rules; the real call must succeed exactly when the rules allow it, and after every event the five maps must describe exactly the shadow list (per-IP counts, IP+mirror registry without stale or missing entries, id map, listen-address index, no two introduced connections sharing IP and mirror); removing every live connection must leave all maps empty.",
+ "gnet hands out non-repeating connection ids (assumed). Addresses are three concrete ip:port strings on two IPs and listen ports come from {0,7000}; histories with interleaved removes before the final events are only covered up to the step bound (not an unbounded induction). Malformed address strings are outside (SplitAddr errors).",
+ "DESIGN.md §4 C24")
+
+claim("C33",
+ "Bounded symbolic check of block delivery: GiveBlocksMessage.process is executed on a message of 0..4 blocks with free sequence numbers and genuine/forged flags against a follower whose head is free and whose block execution follows C04's acceptance predicate; the head must end exactly at the end of the gap-free run of publisher blocks above the old head found in message order (known blocks skipped, stop at the first rejection), only those blocks are executed, in sequence, and progress is followed by an announcement of the new head and a request for blocks above it (no progress: no message).",
+ "One delivery step; convergence over many deliveries (any order, duplication, loss) follows by induction with C04 (chain stays a gap-free publisher prefix, and every delivery containing head+1 makes progress). The network scheduler, timers and multiple peers are outside.",
+ "DESIGN.md §4 C33")
+
 _pending = "check not built yet in this revision (work in progress; see DESIGN.md §4)"
-for p in ["C02","C05","C06","C07","C10","C12","C13","C14","C16","C17","C19","C20","C21","C24","C25","C26","C27","C30","C33"]:
+for p in ["C02","C05","C06","C07","C10","C12","C13","C14","C16","C17","C19","C20","C21","C25","C26","C27","C30","C33"]:
     na(p, _pending)
 na("C08", "crash points inside boltdb's mmap/page commit and fsync ordering plus the goroutine/channel WalkChain pipeline cannot be encoded by an SSA->SMT executor (no I/O ordering or scheduling semantics)")
 na("C32", "race freedom and shutdown under all goroutine schedules: the encoder has no thread/channel semantics; the race detector is a dynamic technique outside this family")
